@@ -693,3 +693,11 @@ mod tests {
         mp.add(pb);
     }
 }
+
+// Verification hooks (add-only): inert unless built by Kani or with `--cfg indicatif_verif`.
+#[cfg(kani)]
+#[path = "/verif/kani/multi.rs"]
+mod verif_kani;
+#[cfg(indicatif_verif)]
+#[path = "/verif/hooks/multi.rs"]
+pub mod verif_hooks;
